@@ -115,12 +115,16 @@ def explore(chk, rnd, tier):
     # top-level selector functions over arrays of the document itself (with duplicates, ragged, nested): they return new values
     for _ in range(n // 16):
         dd = {"tags": [rnd.choice(["a", "b", "c"]) for _ in range(rnd.randint(0, 6))],
-              "t": [{"a": rnd.choice([1, 2]), "xs": [rnd.choice([1, 2, 3]) for _ in range(rnd.randint(0, 4))]} for _ in range(rnd.randint(0, 4))],
+              "t": [{"a": rnd.choice([1, 2]), "price": rnd.choice([1.5, 2, 0.25, "3.5", None]),
+                     "xs": [rnd.choice([1, 2, 3]) for _ in range(rnd.randint(0, 4))]} for _ in range(rnd.randint(0, 4))],
               "grid": [[1, 1, 2], [2, 2], []]}
         sql = rnd.choice([
             "SELECT `distinct=>tags` AS d FROM dual", "SELECT `distinct=>tags[(0:end)]` AS d FROM dual", "SELECT * FROM `distinct=>t`",
             "SELECT a, `distinct=>xs` AS d FROM t", "SELECT `mix=>grid` AS m, `distinct=>grid[0]` AS g FROM dual",
             "SELECT * FROM `distinct=>root.t`", "SELECT FIRST(`distinct=>tags`) AS f, LAST(`mix=>grid`) AS l FROM dual",
+            # pipes reshape and convert into a NEW object: `|string` / `|number` of fractional, integral and textual values
+            "SELECT `{price|string, a}` AS p FROM t", "SELECT * FROM `t.{a|string, price|string}`", "SELECT `t.{price|number, a|string}` AS p FROM t",
+            "SELECT a FROM t WHERE `{price|string}.price` = '1.500000'",
         ])
         reqs.append({"op": "query", "doc": enc_val(dd), "sql": sql, "wrapped": "root." in sql})
         tags.append(sql)
